@@ -7,7 +7,7 @@ from props import subfam
 def run(tier, seed, replay=None):
     ck = vlib.Check("C14", tier, seed, "model_checking")
     binary = vlib.build_harness()
-    subfam.model_check(ck)
+    subfam.model_check(ck, thorough=(tier != "quick"))
     n = 200 if tier == "quick" else 4000
     lines, wd = subfam.run_family(ck, binary, "listeners", n, seed, strict=True)
     shutil.rmtree(wd, ignore_errors=True)
